@@ -268,6 +268,15 @@ func (e *Engine) initIntrinsics() {
 	I["vp:vpSymbolic"] = func(e *Engine, a []Value, pos token.Pos, fn *ssa.Function) Value { return tb.True }
 	I["vp:vpObserve"] = func(e *Engine, a []Value, pos token.Pos, fn *ssa.Function) Value {
 		e.observations = append(e.observations, Observation{Label: e.constStr(a[0], "label"), V: a[1], G: e.G})
+		if os.Getenv("VERIF_DUMP_OBSERVE") != "" {
+			v := a[1]
+			if iv, ok := v.(*IfaceV); ok && len(iv.Alts) == 1 {
+				v = iv.Alts[0].V
+			}
+			if t, ok := v.(*Term); ok {
+				fmt.Fprintf(os.Stderr, "OBSERVE %s id=%d: %s\n", e.constStr(a[0], "label"), t.ID, t.Dump(14))
+			}
+		}
 		if e.fixed != nil {
 			v := a[1]
 			if iv, ok := v.(*IfaceV); ok && len(iv.Alts) == 1 {
